@@ -40,9 +40,10 @@ NormSrvCl(o) ==
      vis |-> [kind |-> o.vis.kind, list |-> o.vis.list, added |-> ToSet(o.vis.added), removed |-> ToSet(o.vis.removed)],
      pendingMap |-> o.pendingMap]
 
+\* ord / rord: the order of the records on the wire, as observed (an input of the client's apply functions)
 NormUpd(m) == [tick |-> m.tick, maps |-> ToSet(m.maps), desp |-> m.desp,
-               rems |-> [e \in DOMAIN m.rems |-> ToSet(m.rems[e])], chg |-> m.chg]
-NormMut(m) == [upd |-> m.upd, tick |-> m.tick, cnt |-> m.cnt, idx |-> m.idx, ents |-> m.ents]
+               rems |-> [e \in DOMAIN m.rems |-> ToSet(m.rems[e])], chg |-> m.chg, rord |-> m.rorder, ord |-> m.order]
+NormMut(m) == [upd |-> m.upd, tick |-> m.tick, cnt |-> m.cnt, idx |-> m.idx, ents |-> m.ents, ord |-> m.order]
 MapSeq(s, F(_)) == [i \in 1..Len(s) |-> F(s[i])]
 
 NormNet(n) == [upd |-> MapSeq(n.upd, NormUpd), mut |-> MapSeq(n.mut, NormMut), ack |-> n.ack,
@@ -53,7 +54,7 @@ NormCli(o, lastNotDisc, preUsed, mt) ==
      ents |-> [e \in DOMAIN o.ents |-> [alive |-> o.ents[e].alive, marker |-> o.ents[e].marker,
                                          comps |-> o.ents[e].comps, hist |-> o.ents[e].hist, pre |-> o.ents[e].pre]],
      pre |-> o.pre, preUsed |-> preUsed, extra |-> o.extra, mt |-> mt, notif |-> o.notif,
-     buf |-> MapSeq(o.buf, LAMBDA b : [upd |-> b.upd, tick |-> b.tick, cnt |-> b.cnt, ents |-> b.ents, idx |-> b.idx]),
+     buf |-> MapSeq(o.buf, LAMBDA b : [upd |-> b.upd, tick |-> b.tick, cnt |-> b.cnt, ents |-> b.ents, idx |-> b.idx, ord |-> b.order]),
      lastNotDisc |-> lastNotDisc, panicked |-> o.panicked]
 
 \* fields the harness cannot observe are carried over from the prediction
@@ -80,11 +81,16 @@ CliFields == {"status", "updTick", "ents", "buf", "panicked", "pre", "extra", "n
 EvNetFields == {"sev", "rxSev", "cev", "srxCev"}
 SrvFields == {"tick", "frame", "running", "now", "world", "despawnBuf", "removalBuf"}
 
+\* the order of the records inside a message is not predicted (it is Bevy's archetype order)
+NoOrd(f, v) == IF f \in {"upd", "rxUpd"} THEN MapSeq(v, LAMBDA m : [m EXCEPT !.ord = <<>>, !.rord = <<>>])
+               ELSE IF f \in {"mut", "rxMut", "buf"} THEN MapSeq(v, LAMBDA m : [m EXCEPT !.ord = <<>>])
+               ELSE v
+
 Diffs(p, o) ==
     {<<"srv", f, "-">> : f \in {x \in SrvFields : p.srv[x] # o.srv[x]}}
     \cup UNION {{<<"srv.cl", f, c>> : f \in {x \in ClFields : p.srv.cl[c][x] # o.srv.cl[c][x]}} : c \in Clients}
-    \cup UNION {{<<"net", f, c>> : f \in {x \in NetFields : p.net[c][x] # o.net[c][x]}} : c \in Clients}
-    \cup UNION {{<<"cli", f, c>> : f \in {x \in CliFields : p.cli[c][x] # o.cli[c][x]}} : c \in Clients}
+    \cup UNION {{<<"net", f, c>> : f \in {x \in NetFields : NoOrd(x, p.net[c][x]) # NoOrd(x, o.net[c][x])}} : c \in Clients}
+    \cup UNION {{<<"cli", f, c>> : f \in {x \in CliFields : NoOrd(x, p.cli[c][x]) # NoOrd(x, o.cli[c][x])}} : c \in Clients}
     \cup UNION {{<<"ev.net", f, c>> : f \in {x \in EvNetFields : p.ev.net[c][x] # o.ev.net[c][x]}} : c \in Clients}
 
 FieldVal(s, d) == CASE d[1] = "srv" -> s.srv[d[2]]
